@@ -9,6 +9,16 @@ def run(ctx):
                 "tangency included); non-trivial = at least two points")
     ctx.assumptions = ["coordinates are small integers / half-integers, so squared distances are exact in float64"]
     ctx.build_harness()
+    # mode E: the transcribed pruned searches against brute force on EVERY valid k-d tree
+    e = ctx.tlc("E-kdsearch", "spatial/KdSearch", "SPECIFICATION Spec\nCONSTANTS\n  MaxN = %d\n  G = 3\n"
+                "INVARIANTS NearestIsNearest SphereIsBrute ContainsIsBrute\nCHECK_DEADLOCK FALSE\n" % (3 if quick else 4),
+                workers=16, timeout=2400, heap="8g")
+    if e.invariant:
+        from vlib import Infra
+        raise Infra("KdSearch violates %s: the transcription of the tree search (or its pruning rule) is wrong" % e.invariant)
+    ctx.require_clean(e, "E-kdsearch")
+    ctx.add_tlc_counts(e)
+    ctx.stage("kd-search-model", kind="E", trees=e.distinct)
     solids.judge_stage(ctx, "points", ["c08-points", "maxn=%d" % (3 if quick else 4), "grid=3,2,2",
                                        "random=%d" % (40 if quick else 400), "rn=%d" % (12 if quick else 30)],
                        {"panic", "tree", "nn", "knn", "sphere", "contains"}, judge="spatial/PointIndex",
